@@ -32,6 +32,10 @@ Ref: 'ref' name=ID '->' target=[Item];
 Val: INT | STRING;
 Tag: /#\\w+/;
 '''
+# C13 only: an attribute assigned with several types beside attributes typed by the abstract rule
+GRAMMAR13 = GRAMMAR.replace("('tag' tag=Tag)? '}';", "('tag' tag=Tag)?\n  ('anchor' (anchor=Item | 'leaf' anchor=Leaf | 'val' anchor=Val))? '}';")
+assert GRAMMAR13 != GRAMMAR
+
 
 
 def gen_tree(r, depth, names, maxdepth, prefix):
@@ -176,8 +180,8 @@ def one(ctx, i, rep=None):
                 inited.add(id(self))
 
         class Block:
-            def __init__(self, parent=None, name=None, first=None, items=None, alt=None, tag=None):
-                self.parent, self.name, self.first, self.items, self.alt, self.tag = parent, name, first, items, alt, tag
+            def __init__(self, parent=None, name=None, first=None, items=None, alt=None, tag=None, anchor=None):
+                self.parent, self.name, self.first, self.items, self.alt, self.tag, self.anchor = parent, name, first, items, alt, tag, anchor
                 inited.add(id(self))
         classes = [Leaf, Block]
 
@@ -230,7 +234,7 @@ def one(ctx, i, rep=None):
             return own_replacement(rule, x.name, salt)
         return proc
 
-    mm = metamodel_from_str(GRAMMAR, classes=classes)
+    mm = metamodel_from_str(GRAMMAR13, classes=classes)
     mm.register_scope_providers({'*.*': sp.PlainNameImportURI()})
     procs = {'Model': mk('Model'), 'Block': mk('Block'), 'Leaf': mk('Leaf'), 'Ref': mk('Ref'),
              'Item': mk('Item'), 'Val': mk('Val', True), 'Tag': mk('Tag', True)}
@@ -246,7 +250,7 @@ def one(ctx, i, rep=None):
         ctx.count('one_callable_for_all_rules_loads')
     if multi_lang:
         from textx import register_language, clear_language_registrations, LanguageDesc
-        mm2 = metamodel_from_str(GRAMMAR)
+        mm2 = metamodel_from_str(GRAMMAR13)
         mm2.register_scope_providers({'*.*': sp.PlainNameImportURI()})
         mm2.register_obj_processors(procs)
         clear_language_registrations()
